@@ -655,6 +655,11 @@ func (p *Printer) wordParts(wps []WordPart, quoted bool) {
 			p.w.WriteString("\\\n")
 			p.line++
 		}
+		if _, ok := wp.(*ProcSubst); ok && i > 0 {
+			// Within a word, a process substitution must stay glued to what precedes it;
+			// the space to avoid conflicts like "< <(foo)" only applies at the start.
+			p.wantSpace = spaceNotRequired
+		}
 		p.wordPart(wp, next)
 		p.advanceLine(wp.End().Line())
 	}
